@@ -117,7 +117,11 @@ func c17Fence(c *Ctx, p *Prog) {
 	}
 	lp := loops[0]
 	mk := func() *e6Interp {
-		return &e6Interp{PureCall: func(f *types.Func) bool { return f.Pkg() != nil && f.Pkg().Path() == istatsPkg }}
+		return &e6Interp{PureCall: func(f *types.Func) bool { return f.Pkg() != nil && f.Pkg().Path() == istatsPkg },
+			// a fence computation moved into a helper of the package is evaluated in place
+			Inline: func(f *ssa.Function) bool {
+				return f.Pkg != nil && f.Pkg.Pkg.Path() == modPath+"/benchstat" && f.Parent() == nil && len(naturalLoops(f)) == 0 && len(f.Blocks) <= 10
+			}}
 	}
 	// entry .. one iteration (the second visit of the header ends the run)
 	stop := map[*ssa.BasicBlock]bool{}
